@@ -3,8 +3,8 @@
 From Coq Require Import List NArith ZArith.
 Require Extraction.
 Require Import ExtrOcamlBasic.
-From Mos Require Import model.Format Gen.FmtRules model.FormatParse.
+From Mos Require Import model.Format Gen.FmtRules model.FormatParse spec.FormatSource.
 
 Extraction "../extract/gen/fmtsrc.ml"
   Z.add Z.mul Z.sub Z.opp Z.div Z.modulo Z.of_N Z.to_N Z.of_nat Z.to_nat
-  format_source default_options.
+  format_source source_shaped default_options.
